@@ -35,6 +35,8 @@ static char seqx_msg[1024];
 /* optional start state: ops applied after init() on every fresh object
  * (--prefix a,b,c); lets a job explore from a non-initial state */
 static int seqx_prefix[32], seqx_nprefix;
+/* --shard i/n: at depth 1 only first ops with index % n == i are expanded */
+static int seqx_shard, seqx_nshards = 1;
 static void *seqx_fresh(const struct seqx_spec *spec)
 {
     void *st = spec->init();
@@ -183,6 +185,8 @@ static int seqx_explore(const struct seqx_spec *spec, int maxdepth,
         for (size_t ni = level_begin; ni < level_end && !capped; ni++) {
             int n = seqx_hist(&r, (int)ni, hist, 120);
             for (int op = 0; op < spec->nops; op++) {
+                if (depth == 1 && seqx_nshards > 1 && op % seqx_nshards != seqx_shard)
+                    continue;
                 if (v_now() - t0 > deadline_s ||
                     (max_states > 0 && (long long)r.seen.n > max_states)) {
                     capped = true;
@@ -303,6 +307,8 @@ static int seqx_main(const struct seqx_spec *spec, int argc, char **argv,
             max_states = atoll(argv[++i]);
         else if (!strcmp(argv[i], "--replay") && i + 1 < argc)
             replay = argv[++i];
+        else if (!strcmp(argv[i], "--shard") && i + 1 < argc)
+            sscanf(argv[++i], "%d/%d", &seqx_shard, &seqx_nshards);
         else if (!strcmp(argv[i], "--prefix") && i + 1 < argc)
             seqx_nprefix = seqx_parse_hist(argv[++i], seqx_prefix, 32);
     }
